@@ -34,6 +34,10 @@ var (
 	urnPrefix  = []byte("urn:uuid:")
 	byteGroups = []int{8, 4, 4, 4, 12}
 
+	// The errors are returned as they are (not wrapped with the text and a stack
+	// trace): readers call UnmarshalText for every value of a property and drop
+	// the error.
+
 	// ErrUUIDFormat is returned for an incorrect UUID format.
 	ErrUUIDFormat = errors.New("uuid: incorrect UUID format")
 
@@ -145,7 +149,7 @@ func (u *UUID) UnmarshalText(text []byte) (err error) {
 	case 45:
 		return u.decodeURN(text)
 	default:
-		return errors.Wrap(ErrUUIDLength, string(text))
+		return ErrUUIDLength
 	}
 }
 
@@ -153,7 +157,7 @@ func (u *UUID) UnmarshalText(text []byte) (err error) {
 // "6ba7b810-9dad-11d1-80b4-00c04fd430c8".
 func (u *UUID) decodeCanonical(t []byte) (err error) {
 	if t[8] != '-' || t[13] != '-' || t[18] != '-' || t[23] != '-' {
-		return errors.Wrap(ErrUUIDFormat, string(t))
+		return ErrUUIDFormat
 	}
 
 	src := t[:]
@@ -165,7 +169,7 @@ func (u *UUID) decodeCanonical(t []byte) (err error) {
 		}
 		if _, err = hex.Decode(dst[:byteGroup/2], src[:byteGroup]); err != nil {
 			*u = NilUUID
-			return errors.Wrap(ErrUUIDFormat, err.Error())
+			return ErrUUIDFormat
 		}
 		src = src[byteGroup:]
 		dst = dst[byteGroup/2:]
@@ -179,7 +183,7 @@ func (u *UUID) decodeCanonical(t []byte) (err error) {
 func (u *UUID) decodeHashLike(t []byte) (err error) {
 	if _, err = hex.Decode(u[:], t[:]); err != nil {
 		*u = NilUUID
-		return errors.Wrap(ErrUUIDFormat, err.Error())
+		return ErrUUIDFormat
 	}
 	return
 }
@@ -191,7 +195,7 @@ func (u *UUID) decodeBraced(t []byte) (err error) {
 	l := len(t)
 
 	if t[0] != '{' || t[l-1] != '}' {
-		return errors.Wrap(ErrUUIDFormat, string(t))
+		return ErrUUIDFormat
 	}
 
 	return u.decodePlain(t[1 : l-1])
@@ -203,7 +207,7 @@ func (u *UUID) decodeBraced(t []byte) (err error) {
 func (u *UUID) decodeURN(t []byte) (err error) {
 	// t[:9] is urnUUIDPrefix
 	if !bytes.Equal(t[:9], urnPrefix) {
-		return errors.Wrap(ErrUUIDFormat, string(t))
+		return ErrUUIDFormat
 	}
 
 	return u.decodePlain(t[9:])
@@ -219,6 +223,6 @@ func (u *UUID) decodePlain(t []byte) (err error) {
 	case 36:
 		return u.decodeCanonical(t)
 	default:
-		return errors.Wrap(ErrUUIDLength, string(t))
+		return ErrUUIDLength
 	}
 }
